@@ -1,0 +1,35 @@
+// Copyright The gittuf Authors
+// SPDX-License-Identifier: Apache-2.0
+
+//go:build verif
+
+package set
+
+import (
+	"cmp"
+	"slices"
+)
+
+// VerifOrderHook, when non-nil, receives the number of items of a set whose
+// contents are being listed and returns the permutation to apply to the
+// sorted contents. It exists only under the verif build tag so that a
+// verification harness can own the otherwise random map iteration order.
+var VerifOrderHook func(n int) []int
+
+// verifOrder makes Contents() deterministic under the verif build tag: items
+// are sorted and then permuted as the harness requests (identity by default).
+func verifOrder[T cmp.Ordered](items []T) []T {
+	slices.Sort(items)
+	if VerifOrderHook == nil || len(items) < 2 {
+		return items
+	}
+	perm := VerifOrderHook(len(items))
+	if len(perm) != len(items) {
+		return items
+	}
+	out := make([]T, len(items))
+	for i, p := range perm {
+		out[i] = items[p]
+	}
+	return out
+}
